@@ -26,6 +26,8 @@ def run(ctx):
     shared.seed_restart_rule(ctx, 'C02.k', ['cirq-core/cirq/'], floor=8)
     ctx.decided.append('C02.k a seed parameter is parsed once per call, never handed raw to something inside a loop (independent draws stay independent for integer seeds)')
     simrules.copy_isolation_rule(ctx, 'C02.b')
+    simrules.latest_record_rule(ctx, 'C02.l')
+    ctx.decided.append('C02.l a single record picked for a repeated key is the latest one, as classical controls read it')
     simrules.replay_isolation_rule(ctx, 'C02.c')
     simrules.measure_chain_rule(ctx, 'C02.e')
     simrules.product_sample_order_rule(ctx, 'C02.g')
